@@ -477,10 +477,10 @@ class simplify_chained_calls(FuncADLNodeTransformer):
             if (
                 # Only plain parameters can be substituted (keyword-only, positional-only,
                 # *args and **kwargs parameters are not among `args.args`)
-                lambda_args.posonlyargs
-                or lambda_args.kwonlyargs
-                or lambda_args.vararg
-                or lambda_args.kwarg
+                getattr(lambda_args, "posonlyargs", None)
+                or getattr(lambda_args, "kwonlyargs", None)
+                or getattr(lambda_args, "vararg", None)
+                or getattr(lambda_args, "kwarg", None)
                 or len(set(param_names)) != len(param_names)
                 or n_pos > len(param_names)
                 or len(set(kw_names)) != len(kw_names)
